@@ -99,7 +99,7 @@ def generator(kind):
     return cnfgen.RandomKCNF if kind == "kcnf" else cnfgen.RandomKXOR
 
 
-PLANTED_REPS = ("list", "tuple", "set", "dict_keys", "iterator", "generator")
+PLANTED_REPS = ("list", "tuple", "set", "dict_keys", "iterator", "generator", "reversed", "shuffled", "shuffled_tuples")
 
 
 def represent(pa, rep):
@@ -117,6 +117,15 @@ def represent(pa, rep):
         return iter(pa)
     if rep == "generator":
         return (a for a in pa)
+    if rep == "reversed":               # an assignment is a sequence of literals: their order is not data
+        return [list(a)[::-1] for a in pa]
+    if rep in ("shuffled", "shuffled_tuples"):
+        out = []
+        for a in pa:
+            b = list(a)
+            pyrandom.Random(len(b) * 31 + sum(b)).shuffle(b)
+            out.append(tuple(b) if rep == "shuffled_tuples" else b)
+        return out
     raise tlc.MachineryError("unknown representation %r" % rep)
 
 
